@@ -171,6 +171,12 @@ pub struct Module {
     pub imports: Vec<(String, String, u32)>,
     /// explicit export list (name, kind 0..3, index); None = every function i as "f<i>"
     pub exports: Option<Vec<(String, u8, u32)>>,
+    /// encode the offset of data (true) / element (false) segment number .1 as `global.get .2` (binary only)
+    pub offset_global: Option<(bool, usize, u32)>,
+    /// encode the initialiser of global number .0 as `global.get .1` (binary only)
+    pub init_global: Option<(usize, u32)>,
+    /// custom sections (name bytes, contents) appended at the end (binary only)
+    pub customs: Vec<(Vec<u8>, Vec<u8>)>,
 }
 #[derive(Clone, Debug)]
 pub struct Case {
@@ -319,6 +325,27 @@ thread_local! {
     /// Some(valid?) once the hack has been applied
     pub static LEB_APPLIED: std::cell::Cell<Option<bool>> = const { std::cell::Cell::new(None) };
 }
+thread_local! {
+    /// fixed-byte mutation: (index of the tag / reserved / opcode byte to replace among all such bytes written, new value)
+    pub static FIXED_HACK: std::cell::Cell<(i64, u8)> = const { std::cell::Cell::new((-1, 0)) };
+    pub static FIXED_COUNT: std::cell::Cell<i64> = const { std::cell::Cell::new(0) };
+}
+thread_local! {
+    pub static OPC_HACK: std::cell::Cell<(i64, u8)> = const { std::cell::Cell::new((-1, 0)) };
+    pub static OPC_COUNT: std::cell::Cell<i64> = const { std::cell::Cell::new(0) };
+}
+/// push the byte of an instruction without immediates (separate counter: there are many of them)
+pub fn fixed_op(out: &mut Vec<u8>, b: u8) {
+    let c = OPC_COUNT.with(|c| { let v = c.get(); c.set(v + 1); v });
+    let (t, nb) = OPC_HACK.with(|h| h.get());
+    out.push(if c == t { nb } else { b });
+}
+/// push a byte whose value is fixed by the grammar (tags, reserved zero bytes, type bytes, plain opcodes)
+pub fn fixed(out: &mut Vec<u8>, b: u8) {
+    let c = FIXED_COUNT.with(|c| { let v = c.get(); c.set(v + 1); v });
+    let (t, nb) = FIXED_HACK.with(|h| h.get());
+    out.push(if c == t { nb } else { b });
+}
 fn leb_turn() -> u8 {
     let c = LEB_COUNT.with(|c| { let v = c.get(); c.set(v + 1); v });
     let (t, m) = LEB_HACK.with(|h| h.get());
@@ -327,6 +354,13 @@ fn leb_turn() -> u8 {
 pub fn uleb(out: &mut Vec<u8>, x: u64) {
     let mode = leb_turn();
     let start = out.len();
+    if mode >= 5 {
+        // value-level mutation of a count / size / index / offset
+        let y = match mode { 5 => x + 1, 6 => x.saturating_sub(1), 7 => 0xffff_ffff, 8 => x + 2, 9 => 0x1_0000_0000, _ => x.wrapping_mul(3) & 0xffff_ffff };
+        uleb_plain(out, y);
+        LEB_APPLIED.with(|a| a.set(None));
+        return;
+    }
     uleb_plain(out, x);
     if mode == 0 { return; }
     let len = out.len() - start;
@@ -420,15 +454,15 @@ pub fn encode_op(out: &mut Vec<u8>, op: &Op) {
     match op {
         Op::Block(b) => {
             out.push(0x02);
-            out.push(bt_byte(*b))
+            fixed(out, bt_byte(*b))
         }
         Op::Loop(b) => {
             out.push(0x03);
-            out.push(bt_byte(*b))
+            fixed(out, bt_byte(*b))
         }
         Op::If(b) => {
             out.push(0x04);
-            out.push(bt_byte(*b))
+            fixed(out, bt_byte(*b))
         }
         Op::Else => out.push(0x05),
         Op::End => out.push(0x0b),
@@ -455,7 +489,7 @@ pub fn encode_op(out: &mut Vec<u8>, op: &Op) {
         Op::CallIndirect(t) => {
             out.push(0x11);
             uleb(out, *t as u64);
-            out.push(0x00)
+            fixed(out, 0x00)
         }
         Op::LocalGet(i) => {
             out.push(0x20);
@@ -491,9 +525,9 @@ pub fn encode_op(out: &mut Vec<u8>, op: &Op) {
             sleb_n(out, *c, 64)
         }
         Op::Plain(b) => {
-            out.push(*b);
+            fixed_op(out, *b);
             if *b == 0x3f || *b == 0x40 {
-                out.push(0x00)
+                fixed(out, 0x00)
             }
         }
         Op::Tick(_) => out.push(0xfe), // not encodable: makes the module unparseable on purpose
@@ -516,16 +550,16 @@ impl Module {
         let mut b = vec![];
         uleb(&mut b, self.types.len() as u64);
         for s in &self.types {
-            b.push(0x60);
+            fixed(&mut b, 0x60);
             uleb(&mut b, s.params.len() as u64);
             for p in &s.params {
-                b.push(p.byte());
+                fixed(&mut b, p.byte());
             }
             match s.result {
-                None => b.push(0),
+                None => fixed(&mut b, 0),
                 Some(r) => {
-                    b.push(1);
-                    b.push(r.byte())
+                    fixed(&mut b, 1);
+                    fixed(&mut b, r.byte())
                 }
             }
         }
@@ -538,7 +572,7 @@ impl Module {
                 b.extend(m.as_bytes());
                 uleb(&mut b, n.len() as u64);
                 b.extend(n.as_bytes());
-                b.push(0x00);
+                fixed(&mut b, 0x00);
                 uleb(&mut b, *ty as u64);
             }
             sec_push(out, 2, b);
@@ -553,8 +587,8 @@ impl Module {
         if let Some(n) = self.table {
             let mut b = vec![];
             uleb(&mut b, 1);
-            b.push(0x70);
-            b.push(0x00);
+            fixed(&mut b, 0x70);
+            fixed(&mut b, 0x00);
             uleb(&mut b, n as u64);
             sec_push(out, 4, b);
         }
@@ -563,11 +597,11 @@ impl Module {
             uleb(&mut b, 1);
             match max {
                 None => {
-                    b.push(0x00);
+                    fixed(&mut b, 0x00);
                     uleb(&mut b, min as u64)
                 }
                 Some(x) => {
-                    b.push(0x01);
+                    fixed(&mut b, 0x01);
                     uleb(&mut b, min as u64);
                     uleb(&mut b, x as u64)
                 }
@@ -577,20 +611,21 @@ impl Module {
         if !self.globals.is_empty() {
             let mut b = vec![];
             uleb(&mut b, self.globals.len() as u64);
-            for (mu, ty, v) in &self.globals {
-                b.push(ty.byte());
-                b.push(*mu as u8);
+            for (gi, (mu, ty, v)) in self.globals.iter().enumerate() {
+                fixed(&mut b, ty.byte());
+                fixed(&mut b, *mu as u8);
+                if let Some((g, k)) = self.init_global { if g == gi { fixed(&mut b, 0x23); uleb(&mut b, k as u64); fixed(&mut b, 0x0b); continue; } }
                 match ty {
                     VT::I32 => {
-                        b.push(0x41);
+                        fixed(&mut b, 0x41);
                         sleb(&mut b, *v as i32 as i64)
                     }
                     VT::I64 => {
-                        b.push(0x42);
+                        fixed(&mut b, 0x42);
                         sleb(&mut b, *v)
                     }
                 }
-                b.push(0x0b);
+                fixed(&mut b, 0x0b);
             }
             sec_push(out, 6, b);
         }
@@ -600,18 +635,20 @@ impl Module {
         for (name, kind, idx) in &ex {
             uleb(&mut b, name.len() as u64);
             b.extend(name.as_bytes());
-            b.push(*kind);
+            fixed(&mut b, *kind);
             uleb(&mut b, *idx as u64);
         }
         sec_push(out, 7, b);
         if !self.elems.is_empty() {
             let mut b = vec![];
             uleb(&mut b, self.elems.len() as u64);
-            for (off, fs) in &self.elems {
+            for (ei, (off, fs)) in self.elems.iter().enumerate() {
                 uleb(&mut b, 0);
-                b.push(0x41);
-                sleb(&mut b, *off as i32 as i64);
-                b.push(0x0b);
+                match self.offset_global {
+                    Some((false, k, g)) if k == ei => { fixed(&mut b, 0x23); uleb(&mut b, g as u64); }
+                    _ => { fixed(&mut b, 0x41); sleb(&mut b, *off as i32 as i64); }
+                }
+                fixed(&mut b, 0x0b);
                 uleb(&mut b, fs.len() as u64);
                 for f in fs {
                     uleb(&mut b, *f as u64);
@@ -629,7 +666,7 @@ impl Module {
             uleb(&mut c, groups.len() as u64);
             for (n, t) in groups {
                 uleb(&mut c, n as u64);
-                c.push(t.byte());
+                fixed(&mut c, t.byte());
             }
             for o in &f.body {
                 encode_op(&mut c, o);
@@ -641,15 +678,24 @@ impl Module {
         if !self.data.is_empty() {
             let mut b = vec![];
             uleb(&mut b, self.data.len() as u64);
-            for (off, bs) in &self.data {
+            for (di, (off, bs)) in self.data.iter().enumerate() {
                 uleb(&mut b, 0);
-                b.push(0x41);
-                sleb(&mut b, *off as i32 as i64);
-                b.push(0x0b);
+                match self.offset_global {
+                    Some((true, k, g)) if k == di => { fixed(&mut b, 0x23); uleb(&mut b, g as u64); }
+                    _ => { fixed(&mut b, 0x41); sleb(&mut b, *off as i32 as i64); }
+                }
+                fixed(&mut b, 0x0b);
                 uleb(&mut b, bs.len() as u64);
                 b.extend(bs);
             }
             sec_push(out, 11, b);
+        }
+        for (name, contents) in &self.customs {
+            let mut b = vec![];
+            uleb(&mut b, name.len() as u64);
+            b.extend(name);
+            b.extend(contents);
+            sec_push(out, 0, b);
         }
         secs
     }
